@@ -33,7 +33,7 @@ func init() {
 			Why: "a response URL is produced by one of the two mode writers only"},
 		// form post
 		{ID: "E8.form.values", Fn: "op.AuthResponseFormPost", P: []string{"res", "redirectURI", "response", "encoder"}, Kind: "call", Pat: "op.formPostTmpl.Execute($w, &_{RedirectURI: $redirectURI, Params: $values})", Max: 1,
-			Req: []string{"ok($encoder.Encode($response, $values))", "def($values, make(__))"}},
+			Req: []string{"(ok($encoder.Encode($response, $values)) && def($values, make(__))) || (def($values, httphelper.URLEncodeParams($response, $encoder), 0) && ok(httphelper.URLEncodeParams($response, $encoder)))"}},
 		{ID: "E8.form.written-after-render", Fn: "op.AuthResponseFormPost", P: []string{"res", "redirectURI", "response", "encoder"}, Kind: "call", Pat: "$buf.WriteTo($res)", Max: 1,
 			Req: []string{"ok(op.formPostTmpl.Execute(&$buf, _)) || ok(op.formPostTmpl.Execute($buf, _))"}},
 		{ID: "E8.form.code-response", Fn: "op.AuthResponseCode", Kind: "call", Pat: "op.AuthResponseFormPost(_, $authReq.GetRedirectURI(), &$resp, _)", Max: 1,
